@@ -26,3 +26,12 @@ pub fn hashmap_keys_where<K: Eq + Hash + Clone, C, F: Fn(&C) -> bool>(m: &HashMa
 {
     m.iter().filter(|kv| f(kv.1)).map(|kv| kv.0.clone()).collect()
 }
+
+// N17: `std::cmp::max(a, b)` on Option<u64> (None < Some(_), Some ordered by value)
+#[verifier::external_body]
+pub fn opt_u64_max(a: Option<u64>, b: Option<u64>) -> (r: Option<u64>)
+    ensures
+        a is None ==> r == b,
+        b is None ==> r == a,
+        a is Some && b is Some ==> r == Some(if a->0 >= b->0 { a->0 } else { b->0 }),
+{ std::cmp::max(a, b) }
